@@ -1,8 +1,831 @@
-// Package c16: stub (property not built yet).
 package c16
 
-import "verifharness/hk"
+import (
+	"bytes"
+	"encoding/json"
+	"fmt"
+	"reflect"
+	"strings"
+	"time"
+	"unicode"
 
-func NewExec() func(w []string) string { return func([]string) string { return "bad-op" } }
+	"perkeep.org/pkg/blob"
 
-func Run(r *hk.Run) { r.Note("not built yet") }
+	"verifharness/hk"
+)
+
+const sep = `,"camliSig":"`
+
+type gen struct {
+	r      *hk.Run
+	w      *world
+	kn     []*knownBlob
+	key    []*knownBlob               // the two signing keys
+	signed map[string]map[string]bool // signer ref text -> payloads (T) that key has signed
+	nv     int
+}
+
+func (g *gen) newCase(label string, kinds map[*knownBlob]int) {
+	g.r.Case(label)
+	g.w = newWorld()
+	for _, k := range g.kn {
+		if kind, ok := kinds[k]; ok {
+			g.op(fmt.Sprintf("key %s %d", hk.Hex([]byte(k.ref.String())), kind))
+		}
+	}
+}
+
+func (g *gen) stdKeys() map[*knownBlob]int {
+	m := map[*knownBlob]int{}
+	for _, k := range g.kn {
+		m[k] = k.maxKind
+	}
+	return m
+}
+
+// op executes a (non-`v`) op on the case's world through the protocol interpreter.
+func (g *gen) op(line string) string {
+	out := hk.Guard(func() string { return g.w.exec(strings.Fields(line)) })
+	g.r.Op(line, out)
+	return out
+}
+
+func (g *gen) logSigned(signer blob.Ref, t string) {
+	m := g.signed[signer.String()]
+	if m == nil {
+		m = map[string]bool{}
+		g.signed[signer.String()] = m
+	}
+	m[t] = true
+}
+
+// ---- random JSON text ---------------------------------------------------------------------------
+
+var wsChoices = []string{"", "", "", " ", "\n", "\t", "  ", "\r\n", " \n "}
+
+func (g *gen) ws() string { return g.r.R.Pick(wsChoices) }
+
+var strPieces = []string{
+	"a", "foo", "Bar", "0", " ", "camliSig", "x y", "é", "世界", "😀", "\u00a0", "\u2028", "ß",
+	`\n`, `\"`, `\\`, `\/`, `\t`, `\b`, `\f`, `\r`, `\u00e9`, `\u4e16`, `\ud83d\ude00`, `\uD83D\uDE00`, `\ud800`, `\udc00`,
+	`\ud800\u0041`, `\u0000`, `\u007f`, `,\"camliSig\":\"`, `,"camliSig":`, "}", "{", ",", ":", "[", "]", "=", "-----",
+}
+
+func (g *gen) strLit() string {
+	rnd := g.r.R
+	var b strings.Builder
+	b.WriteByte('"')
+	n := rnd.Intn(5)
+	for i := 0; i < n; i++ {
+		p := rnd.Pick(strPieces)
+		if strings.ContainsAny(p, `"`) && !strings.Contains(p, `\"`) {
+			p = strings.ReplaceAll(p, `"`, `\"`)
+		}
+		b.WriteString(p)
+	}
+	if rnd.Chance(3) {
+		b.WriteString(rnd.Pick([]string{"\xff", "\xc3", "\xe2\x80", "\xed\xa0\x80", "\xc0\x80", "\xf4\x90\x80\x80"}))
+	}
+	b.WriteByte('"')
+	return b.String()
+}
+
+var numChoices = []string{"0", "1", "-1", "12", "3.25", "-0.5", "1e3", "1E+2", "2e-7", "-0", "0.0", "123456789012345678901234567890",
+	"1e308", "1.7976931348623157e308", "4.9e-324", "1e-400", "0e999", "9007199254740993"}
+
+func (g *gen) value(depth int) string {
+	rnd := g.r.R
+	k := rnd.Intn(10)
+	if depth >= 3 && k >= 7 {
+		k = rnd.Intn(7)
+	}
+	switch k {
+	case 0, 1, 2:
+		return g.strLit()
+	case 3, 4:
+		return rnd.Pick(numChoices)
+	case 5:
+		return rnd.Pick([]string{"true", "false", "null"})
+	case 6:
+		return rnd.Pick([]string{"[]", "{}", "[ ]", "{ }", `""`})
+	case 7, 8:
+		n := rnd.Intn(4)
+		parts := make([]string, n)
+		for i := range parts {
+			parts[i] = g.ws() + g.value(depth+1) + g.ws()
+		}
+		return "[" + strings.Join(parts, ",") + "]"
+	default:
+		n := 1 + rnd.Intn(3)
+		var b strings.Builder
+		b.WriteString("{")
+		for i := 0; i < n; i++ {
+			if i > 0 {
+				b.WriteString(",")
+			}
+			if i > 0 && rnd.Chance(25) {
+				// a genuine separator look-alike inside a nested object
+				b.WriteString(`"camliSig":"` + g.fakeSig() + `"`)
+				continue
+			}
+			b.WriteString(g.ws() + g.strLit() + g.ws() + ":" + g.ws() + g.value(depth+1) + g.ws())
+		}
+		b.WriteString("}")
+		return b.String()
+	}
+}
+
+func (g *gen) fakeSig() string {
+	const b64 = "ABCDEFGHIJKLMNOPQRSTUVWXYZabcdefghijklmnopqrstuvwxyz0123456789+/"
+	n := g.r.R.Intn(40)
+	b := make([]byte, n)
+	for i := range b {
+		b[i] = b64[g.r.R.Intn(64)]
+	}
+	s := string(b)
+	if g.r.R.Bool() {
+		s += "=AbCd"
+	}
+	return s
+}
+
+var trailChoices = []string{"", "", "\n", " ", "  \n", "\t", "\r\n", "\u0085", "\u00a0", "\u2003", "\u3000", "\u1680\n", " \u2028\u2029 ", "\u202f\u205f", "\u200a", "\v\f"}
+
+type unsignedDoc struct {
+	text      string
+	signer    string // text used as camliSigner value ("" when absent / not a string)
+	flavour   string
+	lookalike bool
+}
+
+// object builds one unsigned JSON object. flavour: "" = well-formed schema-like object.
+func (g *gen) object(signerRef string, flavour string) unsignedDoc {
+	rnd := g.r.R
+	type member struct {
+		text  string
+		exact bool // must be joined with a bare ","
+	}
+	var ms []member
+	mk := func(k, v string) member { return member{text: g.ws() + k + g.ws() + ":" + g.ws() + v + g.ws()} }
+	signerVal := `"` + signerRef + `"`
+	switch flavour {
+	case "signer-number":
+		signerVal = "123"
+	case "signer-null":
+		signerVal = "null"
+	case "signer-escaped":
+		// the same ref, written with a \u escape for its first letter
+		signerVal = fmt.Sprintf(`"\u%04x%s"`, signerRef[0], signerRef[1:])
+	}
+	if flavour != "no-version" {
+		ms = append(ms, mk(`"camliVersion"`, rnd.Pick([]string{"1", "1", "1", "2", `"1"`, "null"})))
+	}
+	if flavour != "no-signer" {
+		ms = append(ms, mk(`"camliSigner"`, signerVal))
+	}
+	ud := unsignedDoc{signer: signerRef, flavour: flavour}
+	n := rnd.Intn(6)
+	for i := 0; i < n; i++ {
+		switch {
+		case rnd.Chance(18):
+			ms = append(ms, member{text: `"camliSig":"` + g.fakeSig() + `"`, exact: true})
+		case rnd.Chance(10):
+			ms = append(ms, mk(`"camliType"`, rnd.Pick([]string{`"claim"`, `"permanode"`, `"file"`})))
+		default:
+			ms = append(ms, mk(g.strLit(), g.value(0)))
+		}
+	}
+	if flavour == "dup-signer" {
+		// an earlier camliSigner naming another key: the LAST one wins
+		ms = append([]member{mk(`"camliSigner"`, `"`+g.key[1].ref.String()+`"`)}, ms...)
+	}
+	// shuffle, keeping a possible dup-signer first
+	start := 0
+	if flavour == "dup-signer" {
+		start = 1
+	}
+	for i := len(ms) - 1; i > start; i-- {
+		j := start + rnd.Intn(i-start+1)
+		ms[i], ms[j] = ms[j], ms[i]
+	}
+	var b strings.Builder
+	b.WriteString(rnd.Pick([]string{"", "", " ", "\n"}))
+	b.WriteString("{")
+	for i, m := range ms {
+		if i > 0 {
+			b.WriteString(",")
+			if m.exact {
+				ud.lookalike = true
+			}
+		}
+		b.WriteString(m.text)
+	}
+	b.WriteString("}")
+	b.WriteString(rnd.Pick(trailChoices))
+	if rnd.Chance(25) {
+		b.WriteString(rnd.Pick(trailChoices))
+	}
+	ud.text = b.String()
+	if strings.Count(ud.text, sep) == 0 {
+		ud.lookalike = false
+	}
+	return ud
+}
+
+func (g *gen) sigTime() time.Time {
+	rnd := g.r.R
+	switch rnd.Intn(6) {
+	case 0:
+		return time.Unix(0, 0)
+	case 1:
+		return time.Unix(-int64(rnd.Intn(1<<31)), 0)
+	case 2:
+		return time.Unix(int64(1)<<32+int64(rnd.Intn(1<<30)), 0)
+	default:
+		return time.Unix(1300000000+int64(rnd.Intn(400000000)), 0)
+	}
+}
+
+// ---- the property's own reference (independent of the Lean model) -------------------------------
+
+type refView struct {
+	ok        bool // the unsigned text is a JSON object with camliVersion and a string camliSigner
+	trimmed   string
+	t         string // trimmed minus the final '}'
+	m         map[string]any
+	signerStr string
+}
+
+func reference(unsigned string) (rv refView) {
+	rv.trimmed = strings.TrimRightFunc(unsigned, unicode.IsSpace)
+	var m map[string]any
+	if err := json.Unmarshal([]byte(rv.trimmed), &m); err != nil || m == nil {
+		return
+	}
+	rv.m = m
+	if _, ok := m["camliVersion"]; !ok {
+		return
+	}
+	s, ok := m["camliSigner"].(string)
+	if !ok || !strings.HasSuffix(rv.trimmed, "}") {
+		return
+	}
+	rv.signerStr = s
+	rv.t = rv.trimmed[:len(rv.trimmed)-1]
+	rv.ok = true
+	return
+}
+
+type signedDoc struct {
+	doc    []byte
+	t      string
+	signer *knownBlob
+	at     time.Time
+	sig    string
+	ud     unsignedDoc
+}
+
+// signDoc runs one `sign` op and the sign-then-verify oracle.  It returns the signed document when
+// the real Sign succeeded.
+func (g *gen) signDoc(ud unsignedDoc, at time.Time) *signedDoc {
+	r := g.r
+	rv := reference(ud.text)
+	// what the library returns for the reference payload (the oracle column of the op)
+	armored := ""
+	var kb *knownBlob
+	if br, ok := blob.Parse(rv.signerStr); ok && rv.m != nil {
+		kb = known[br.String()]
+	}
+	hasSecret := false
+	tRef := rv.t
+	if !rv.ok && rv.m != nil && strings.HasSuffix(rv.trimmed, "}") {
+		// objects without camliVersion are still signed by Sign
+		if s, ok := rv.m["camliSigner"].(string); ok {
+			if br, ok := blob.Parse(s); ok {
+				kb = known[br.String()]
+			}
+			tRef = rv.trimmed[:len(rv.trimmed)-1]
+		}
+	}
+	if kb != nil && kb.ent != nil {
+		if _, ok := g.w.secrets[fmt.Sprintf("%X", kb.pub.Fingerprint)]; ok {
+			hasSecret = true
+			a, err := armoredDetachSign(kb.ent, tRef, at)
+			if err == nil {
+				armored = a
+			}
+		}
+	}
+	line := fmt.Sprintf("sign %s %s %d", hk.Hex([]byte(ud.text)), hk.Hex([]byte(armored)), at.Unix())
+	out := g.op(line)
+	if strings.HasPrefix(out, "ok ") {
+		r.Hit("sign:ok")
+	} else {
+		r.Hit("sign:" + strings.ReplaceAll(out, " ", ":"))
+	}
+	if !strings.HasPrefix(out, "ok ") {
+		if rv.ok && hasSecret {
+			r.Fail("sign-rejects-valid-object", "Sign fails on a JSON object with camliVersion and a camliSigner whose key is available",
+				"signed document", out, []string{line})
+		}
+		return nil
+	}
+	docB, _ := hk.UnHex(strings.TrimPrefix(out, "ok "))
+	doc := string(docB)
+	if kb == nil || !hasSecret {
+		r.Fail("sign-without-key", "Sign succeeded although the harness knows no secret key for the signer", "error", out, []string{line})
+		return nil
+	}
+	g.logSigned(kb.ref, tRef)
+	sd := &signedDoc{doc: docB, t: tRef, signer: kb, at: at, ud: ud}
+	// O3a: shape  T + ,"camliSig":"S"}\n  and still valid JSON exposing the original fields
+	if !strings.HasPrefix(doc, tRef+sep) || !strings.HasSuffix(doc, "\"}\n") {
+		r.Fail("signed-doc-shape", "signed document is not T+separator+S+\"}\\n", tRef+sep+"…", doc, []string{line})
+		return sd
+	}
+	sd.sig = doc[len(tRef)+len(sep) : len(doc)-3]
+	var dm map[string]any
+	if err := json.Unmarshal(docB, &dm); err != nil {
+		r.Fail("signed-doc-invalid-json", "signed document is not valid JSON: "+err.Error(), "valid JSON", doc, []string{line})
+	} else {
+		cs, isStr := dm["camliSig"].(string)
+		want := map[string]any{}
+		for k, v := range rv.m {
+			want[k] = v
+		}
+		want["camliSig"] = cs
+		if !isStr || cs != sd.sig || !reflect.DeepEqual(dm, want) {
+			r.Fail("signed-doc-fields-differ", "signed document does not expose the original fields plus camliSig", fmt.Sprint(want), fmt.Sprint(dm), []string{line})
+		}
+	}
+	if directCheck(kb.pub, []byte(tRef), sd.sig) != 0 {
+		r.Fail("signature-not-over-payload", "the library does not accept the produced signature for T", "valid", "invalid", []string{line})
+	}
+	if ud.lookalike {
+		r.Hit("signed:payload-contains-separator")
+	}
+	return sd
+}
+
+type origInfo struct {
+	t      string
+	signer blob.Ref
+}
+
+// vop emits one `v` op (mutation word m of the base document) with its oracle column and evaluates
+// the property's oracle on the implementation's answer.
+func (g *gen) vop(base []byte, m string, orig *origInfo) vinfo {
+	r := g.r
+	d, ok := applyMut(base, m)
+	if !ok {
+		panic("c16: bad mutation " + m)
+	}
+	vi := g.w.verify(d)
+	fact, cls := g.w.fact(vi)
+	line := "v " + m + " " + fact
+	out := vi.String()
+	r.Op(line, out)
+	g.nv++
+	if g.nv%211 == 0 {
+		// the interpreter used for replays must agree with what was recorded
+		save := g.w.doc
+		g.w.doc = base
+		if got := g.w.exec(strings.Fields(line)); got != out {
+			r.Fail("harness-replay-differs", "interpreter disagrees with the recorded answer", out, got, []string{line})
+		}
+		g.w.doc = save
+	}
+	r.Hit("v:" + vi.class)
+	if cls >= 0 {
+		r.Hit("mech:signature-checked-over-payload")
+	}
+	if vi.class == "sigkeys" {
+		r.Hit("mech:signature-object-exactly-one-key")
+	}
+	replay := func() []string {
+		return []string{"doc " + hk.Hex(base), line}
+	}
+	if vi.accepted {
+		if bytes.Count(d, []byte(sep)) > 1 {
+			r.Hit("mech:last-separator-of-several")
+		}
+		if cls != 0 {
+			r.Fail("accepted-but-library-rejects", "Verify accepts a document whose (signer, BP, camliSig) the OpenPGP library rejects",
+				"rejected", out, replay())
+		}
+		if !g.signed[vi.signer.String()][string(vi.bp)] {
+			r.Fail("accepted-unsigned-payload", "Verify accepts a payload that the named key never signed", "rejected", out, replay())
+		}
+		if orig != nil && (string(vi.bp) != orig.t || vi.signer != orig.signer) {
+			r.Fail("mutation-accepted-with-changed-payload-or-signer", "a mutated document verifies with another payload or signer",
+				"rejected, or payload and signer unchanged", out, replay())
+		}
+		if orig != nil && m != "b" {
+			r.Hit("mutation-still-verifies")
+			if len(g.r.Res.Samples) < 5 && g.nv%7 == 0 {
+				r.Sample(map[string]any{"kind": "mutation outside BP still verifies", "mutation": m, "answer": out})
+			}
+		}
+	}
+	return vi
+}
+
+var subSet = []byte{'"', ',', '}', '{', '\\', ' ', ':', 'A', '=', 0x00, 0xff, '\n', '/', 'u', '0'}
+var insSet = []byte{'"', ',', '}', ' ', '\\', 'A', '=', 0x00, 0xff, '\n', '{', ':'}
+
+// sweep: every position of the signed document: substitutions, insertions, deletion.
+func (g *gen) sweep(sd *signedDoc, full bool) {
+	base := sd.doc
+	g.op("doc " + hk.Hex(base))
+	orig := &origInfo{t: sd.t, signer: sd.signer.ref}
+	key := fmt.Sprintf("%08x", fnv(base))
+	vi := g.vop(base, "b", orig)
+	if !vi.accepted {
+		return
+	}
+	n := 0
+	for p := 0; p <= len(base); p++ {
+		if p < len(base) {
+			o := base[p]
+			if full {
+				for v := 0; v < 256; v++ {
+					if byte(v) != o {
+						g.vop(base, fmt.Sprintf("s%d:%d", p, v), orig)
+						n++
+					}
+				}
+			} else {
+				seen := map[byte]bool{o: true}
+				for _, v := range append([]byte{o ^ 1, o ^ 0x20, o ^ 0x80, o + 1}, subSet...) {
+					if !seen[v] {
+						seen[v] = true
+						g.vop(base, fmt.Sprintf("s%d:%d", p, v), orig)
+						n++
+					}
+				}
+			}
+			g.vop(base, fmt.Sprintf("d%d", p), orig)
+			n++
+		}
+		if full {
+			for v := 0; v < 256; v++ {
+				g.vop(base, fmt.Sprintf("i%d:%d", p, v), orig)
+				n++
+			}
+		} else {
+			ins := insSet
+			if p < len(base) {
+				ins = append([]byte{base[p]}, insSet...)
+			}
+			seen := map[byte]bool{}
+			for _, v := range ins {
+				if !seen[v] {
+					seen[v] = true
+					g.vop(base, fmt.Sprintf("i%d:%d", p, v), orig)
+					n++
+				}
+			}
+		}
+	}
+	g.r.Distinct("sweep:" + key)
+	g.r.Res.Histogram["sweep-mutations"] += n
+	if full {
+		g.r.Res.Histogram["full-sweeps(all 255 substitutions, 256 insertions, deletion at every position)"]++
+	} else {
+		g.r.Res.Histogram["set-sweeps(>=15 substitutions, >=12 insertions, deletion at every position)"]++
+	}
+}
+
+// randomMutations: a sample of single-byte mutations of a signed document.
+func (g *gen) randomMutations(sd *signedDoc, n int) {
+	rnd := g.r.R
+	base := sd.doc
+	g.op("doc " + hk.Hex(base))
+	orig := &origInfo{t: sd.t, signer: sd.signer.ref}
+	g.vop(base, "b", orig)
+	for i := 0; i < n; i++ {
+		p := rnd.Intn(len(base) + 1)
+		var m string
+		switch k := rnd.Intn(3); {
+		case k == 0 && p < len(base):
+			v := byte(rnd.U64())
+			if v == base[p] {
+				v ^= 1
+			}
+			m = fmt.Sprintf("s%d:%d", p, v)
+		case k == 1 && p < len(base):
+			m = fmt.Sprintf("d%d", p)
+		default:
+			m = fmt.Sprintf("i%d:%d", p, byte(rnd.U64()))
+		}
+		g.vop(base, m, orig)
+	}
+	g.r.Distinct(fmt.Sprintf("rand:%08x", fnv(base)))
+}
+
+// crafted: whole-document variants of a signed document (not single-byte).
+func (g *gen) crafted(sd *signedDoc) {
+	r := g.r
+	doc := string(sd.doc)
+	t, s := sd.t, sd.sig
+	orig := &origInfo{t: t, signer: sd.signer.ref}
+	other := g.key[0]
+	if sd.signer == g.key[0] {
+		other = g.key[1]
+	}
+	x := func(d string, o *origInfo) vinfo {
+		return g.vop(nil, "x"+hk.Hex([]byte(d)), o)
+	}
+	expect := func(vi vinfo, accepted bool, what string) {
+		if vi.accepted != accepted {
+			r.Fail("crafted-"+what, fmt.Sprintf("crafted document (%s): accepted=%v", what, vi.accepted), fmt.Sprint(accepted), vi.String(), nil)
+		}
+	}
+	// things that leave what is signed alone
+	expect(x(t+sep+s+"\" }\n \t", orig), true, "whitespace-in-signature-object")
+	expect(x(t+sep+s+"\"}", orig), true, "no-final-newline")
+	expect(x(t+sep+s+"\", \"camliSig\":\""+s+"\"}\n", orig), true, "duplicate-camliSig-key-same-value")
+	if len(s) > 0 {
+		esc := fmt.Sprintf(`\u%04x`, s[0]) + s[1:]
+		expect(x(t+sep+esc+"\"}\n", orig), true, "escaped-signature-char")
+	}
+	// things that must be rejected
+	expect(x(t+sep+s+"\",\"x\":1}\n", orig), false, "second-key-in-signature-object")
+	expect(x(t+sep+s+"\", \"camliSig\":5}\n", orig), false, "camliSig-not-a-string")
+	expect(x(t+sep+s+"\"}\nx", orig), false, "junk-after-signature-object")
+	expect(x(t+sep+s+"\"}}", orig), false, "extra-brace")
+	expect(x(t+" "+sep+s+"\"}\n", orig), false, "space-appended-to-payload")
+	expect(x(" "+doc, orig), false, "space-prepended-to-payload")
+	expect(x(t, orig), false, "payload-only")
+	expect(x(t+"}", orig), false, "unsigned-object")
+	plainSigner := sd.ud.flavour == "" && strings.Count(doc, sd.signer.ref.String()) == 1
+	if plainSigner {
+		expect(x(strings.Replace(doc, sd.signer.ref.String(), other.ref.String(), 1), orig), false, "signer-swapped")
+		expect(x(strings.Replace(doc, sd.signer.ref.String(), g.kn[3].ref.String(), 1), orig), false, "signer-not-a-key")
+		expect(x(strings.Replace(doc, sd.signer.ref.String(), "sha224-"+strings.Repeat("0", 56), 1), orig), false, "signer-unknown")
+	}
+	// a signature by the OTHER key over the same payload, the document still naming the first key
+	if a, err := armoredDetachSign(other.ent, t, sd.at); err == nil {
+		g.logSigned(other.ref, t)
+		s2 := stripArmorRef(a)
+		vi := x(t+sep+s2+"\"}\n", orig)
+		expect(vi, false, "signature-by-other-key")
+		r.Hit("resign:other-key-same-payload-rejected")
+		// re-signed properly by the other key: the payload names the other key
+		t2 := strings.Replace(t, sd.signer.ref.String(), other.ref.String(), -1)
+		if t2 != t && plainSigner {
+			if a2, err := armoredDetachSign(other.ent, t2, sd.at); err == nil {
+				g.logSigned(other.ref, t2)
+				vi := x(t2+sep+stripArmorRef(a2)+"\"}\n", &origInfo{t: t2, signer: other.ref})
+				// accepted iff the payload is otherwise fine (it was for the first key)
+				expect(vi, true, "resigned-by-other-key")
+				r.Hit("resign:properly-resigned-accepted")
+				// and the first key's signature under the re-targeted payload
+				expect(x(t2+sep+s+"\"}\n", &origInfo{t: t2, signer: other.ref}), false, "old-signature-on-retargeted-payload")
+			}
+		}
+	}
+	// signing the signed document again: the payload then contains a whole earlier signature
+	if out, err := g.w.sign(doc, sd.at); err == nil {
+		tt := strings.TrimRightFunc(doc, unicode.IsSpace)
+		tt = tt[:len(tt)-1]
+		g.logSigned(sd.signer.ref, tt)
+		expect(x(out, &origInfo{t: tt, signer: sd.signer.ref}), true, "double-signed")
+		r.Hit("signed:double-signed")
+	}
+	r.Distinct(fmt.Sprintf("crafted:%08x", fnv(sd.doc)))
+}
+
+// stripArmorRef: the reference of Sign's armor stripping (blank line .. "\n-----", newlines removed).
+func stripArmorRef(a string) string {
+	i1 := strings.Index(a, "\n\n")
+	i2 := strings.Index(a, "\n-----")
+	if i1 < 0 || i2 < i1+2 {
+		return ""
+	}
+	return strings.ReplaceAll(a[i1+2:i2], "\n", "")
+}
+
+// jsonFuzz ties the JSON model directly to encoding/json.
+func (g *gen) jsonFuzz(texts []string, perText int) {
+	rnd := g.r.R
+	for _, t := range texts {
+		g.op("json " + hk.Hex([]byte(t)))
+		for i := 0; i < perText && len(t) > 0; i++ {
+			b := []byte(t)
+			p := rnd.Intn(len(b))
+			switch rnd.Intn(4) {
+			case 0:
+				b[p] = byte(rnd.U64())
+			case 1:
+				b[p] = fuzzA[rnd.Intn(len(fuzzA))]
+			case 2:
+				b = append(b[:p:p], b[p+1:]...)
+			default:
+				b = append(b[:p:p], append([]byte{fuzzB[rnd.Intn(len(fuzzB))]}, b[p:]...)...)
+			}
+			g.op("json " + hk.Hex(b))
+		}
+	}
+}
+
+const fuzzA = "\"\\,:{}[] 0e-.u"
+const fuzzB = "\"\\,:{}[] 0e-.\xc3"
+
+var jsonCorners = []string{
+	``, ` `, `null`, ` null `, `nul`, `true`, `12`, `"x"`, `[]`, `{}`, `{} x`, `{}{}`, `{,}`, `{"a"}`, `{"a":}`, `{"a":1,}`, `{a:1}`,
+	`{"a":1 "b":2}`, `{"a":01}`, `{"a":-}`, `{"a":1.}`, `{"a":.5}`, `{"a":1e}`, `{"a":1e+}`, `{"a":-0e-0}`, `{"a":1E400}`, `{"a":-1e400}`,
+	`{"a":1.7976931348623157e308}`, `{"a":1.7976931348623158e308}`, `{"a":1.797693134862315807e308}`, `{"a":1.797693134862315808e308}`,
+	`{"a":179769313486231580793728971405303415079934132710037826936173778980444968292764750946649017977587207096330286416692887910946555547851940402630657488671505820681908902000708383676273854845817711531764475730270069855571366959622842914819860834936475292719074168444365510704342711559699508093042880177904174497791}`,
+	`{"a":179769313486231580793728971405303415079934132710037826936173778980444968292764750946649017977587207096330286416692887910946555547851940402630657488671505820681908902000708383676273854845817711531764475730270069855571366959622842914819860834936475292719074168444365510704342711559699508093042880177904174497792}`,
+	`{"a":0.00000000000000000000000000001e337}`, `{"a":0.00000000000000000000000000001e338}`, `{"a":17976931348623158000e289}`, `{"a":1e309}`, `{"a":0e99999}`, `{"a":0.0e400}`,
+	`{"a":1e-99999}`, `{"a":[1e999]}`, `{"a":{"b":[{"c":-2e308}]}}`, `[1e999]`, `1e999`,
+	`{"a":"\u12"}`, `{"a":"\u12G4"}`, `{"a":"\x"}`, `{"a":"\'"}`, `{"a":"` + "\x1f" + `"}`, `{"a":"` + "\x7f" + `"}`, `{"a":"\ud800\udc00"}`, `{"a":"\udc00\ud800"}`,
+	`{"a":"\ud83d"}`, `{"a":"\ud83d\u"}`, `{"a":"\ud83dx"}`, `{"a":"\uDBFF\uDFFF"}`, `{"a":"\ufffd"}`, `{"a":"` + "\xef\xbf\xbd" + `"}`,
+	`{"` + "\xff" + `":1,"` + "\xfe" + `":2}`, `{"\u0061":1,"a":2}`, `{"A":1,"a":2}`, `{"":1}`, `{"a":1,"a":"x","a":[ ]}`,
+	`{"a":tru}`, `{"a":truee}`, `{"a":nulL}`, `{"a":false,"b":null,"c":true}`, "\ufeff{}", "{}\u00a0", "{\u00a0}", "{\"a\":1}\x00",
+	`{"camliSig":"x"}`, `{"camliSig":"x","camliSig":"y"}`, `{"camliSig":"x","camliSi\u0067":"y"}`, `{"camliSig":"x","camlisig":"y"}`,
+}
+
+// Run generates the C16 cases.
+func Run(r *hk.Run) {
+	_, kn, err := knownBlobs()
+	if err != nil {
+		r.Fail("harness-setup", "cannot load the test key rings: "+err.Error(), "", "", nil)
+		return
+	}
+	g := &gen{r: r, kn: kn, key: []*knownBlob{kn[0], kn[1]}, signed: map[string]map[string]bool{}}
+	rnd := r.R
+	th := r.Thorough()
+	r.Res.Rule = "a case = one signed (or unsignable) generated JSON object; non-trivial = every signed document that gets a position sweep " +
+		"(every position: deletion, substitution and insertion of a byte set [all 255/256 values in `full` sweeps]), a random-mutation batch or the crafted whole-document variants " +
+		"(re-signed by the other key, signer swapped, duplicate keys, trailing bytes, double-signed); distinct = distinct (document digest, treatment)"
+
+	// (1) stdlib-facing parts of the model: TrimRightFunc(IsSpace), reArmor, encoding/json
+	g.newCase("trim-rearmor-json", nil)
+	for _, tr := range trailChoices {
+		for _, body := range []string{"", "{}", "{\"a\":1}", "x\u00a0y", "\xc2", "\xe2\x80", "a\xa0", "a\x85", "\x80\x80"} {
+			g.op("trim " + hk.Hex([]byte(body+tr)))
+			g.op("trim " + hk.Hex([]byte(body+tr+"\xc2")))
+			g.op("trim " + hk.Hex([]byte(tr+body+tr+tr)))
+		}
+	}
+	for i := 0; i < 200; i++ {
+		b := rnd.Bytes(rnd.Intn(6))
+		tails := [][]byte{{0xc2, 0x85}, {0xc2, 0xa0}, {0xe1, 0x9a, 0x80}, {0xe2, 0x80, byte(0x80 + rnd.Intn(0x30))}, {0xe2, 0x81, 0x9f}, {0xe3, 0x80, 0x80},
+			{byte(9 + rnd.Intn(6))}, {0x20}, {0xe2, 0x80}, {0x80, 0x80}, {0xf0, 0xe2, 0x80, 0x80}, {0xe2, 0x80, 0x8b}, {0x1c}, {0xc2, 0x86}, {0xe1, 0x9a, 0x81}}
+		for k := rnd.Intn(4); k > 0; k-- {
+			b = append(b, tails[rnd.Intn(len(tails))]...)
+		}
+		g.op("trim " + hk.Hex(b))
+	}
+	for _, n := range []int{0, 1, 2, 59, 60, 61, 119, 120, 121, 180, 372, 400} {
+		body := g.fakeSigN(n)
+		for _, s := range []string{body, body + "=", body + "=abcd", body + "==\n=abcd", "=" + body, body + "=ab=cd=", body[:n/2] + "=" + body[n/2:]} {
+			g.op("rearmor " + hk.Hex([]byte(s)))
+		}
+	}
+	g.jsonFuzz(jsonCorners, 0)
+	deep := strings.Repeat("[", 10000) + strings.Repeat("]", 10000)
+	g.op("json " + hk.Hex([]byte(`{"a":`+deep[1:len(deep)-1]+`}`)))
+	g.op("json " + hk.Hex([]byte(`{"a":`+deep+`}`)))
+	g.op("json " + hk.Hex([]byte(strings.Repeat(`{"a":`, 10000)+"1"+strings.Repeat("}", 10000))))
+	g.op("json " + hk.Hex([]byte(strings.Repeat(`{"a":`, 10001)+"1"+strings.Repeat("}", 10001))))
+	r.Hit("json:depth-limit-probed")
+
+	// (2) generated objects: sign, verify, mutate
+	nDocs, nFullSweep, nSetSweep, nRand := 30, 0, 3, 150
+	if th {
+		nDocs, nFullSweep, nSetSweep, nRand = 200, 2, 16, 600
+	}
+	flavours := []string{"", "", "", "", "", "", "dup-signer", "signer-escaped", "no-version", "no-signer", "signer-number", "signer-null"}
+	var good []*signedDoc
+	var texts []string
+	for i := 0; i < nDocs; i++ {
+		k := g.key[rnd.Intn(2)]
+		fl := flavours[rnd.Intn(len(flavours))]
+		if i < 6 {
+			fl = ""
+		}
+		ref := k.ref.String()
+		switch {
+		case i >= 6 && rnd.Chance(4):
+			ref = "sha224-" + strings.Repeat("ab", 28) // no such blob
+		case i >= 6 && rnd.Chance(3):
+			ref = g.kn[3].ref.String() // a blob that is not a key
+		case i >= 6 && rnd.Chance(3):
+			ref = g.kn[2].ref.String() // a public key without secret key
+		case i >= 6 && rnd.Chance(3):
+			ref = rnd.Pick([]string{"", "sha224-xyz", "sha224", "SHA224-" + strings.Repeat("ab", 28), "foo-bar", "sha1-" + strings.Repeat("0", 39)})
+		}
+		ud := g.object(ref, fl)
+		if i == 1 || i == 4 {
+			// make sure look-alikes are among the swept documents
+			for !ud.lookalike {
+				ud = g.object(ref, fl)
+			}
+		}
+		kinds := g.stdKeys()
+		if i >= 6 && rnd.Chance(5) {
+			delete(kinds, k) // the key blob is not there at all
+		}
+		g.newCase(fmt.Sprintf("object %d flavour=%q lookalike=%v", i, fl, ud.lookalike), kinds)
+		texts = append(texts, ud.text)
+		sd := g.signDoc(ud, g.sigTime())
+		if sd == nil {
+			continue
+		}
+		rv := reference(ud.text)
+		g.op("doc " + hk.Hex(sd.doc))
+		var orig *origInfo
+		if rv.ok {
+			orig = &origInfo{t: sd.t, signer: sd.signer.ref}
+		}
+		vi := g.vop(sd.doc, "b", orig)
+		if rv.ok != vi.accepted {
+			r.Fail("signed-doc-not-verifying", fmt.Sprintf("a freshly signed object (reference says verifiable=%v) gives accepted=%v", rv.ok, vi.accepted),
+				fmt.Sprint(rv.ok), vi.String(), r.CaseOps())
+			continue
+		}
+		if !vi.accepted {
+			r.Hit("signed-but-unverifiable(no camliVersion)")
+			continue
+		}
+		if string(vi.bp) != sd.t || vi.signer != sd.signer.ref || !reflect.DeepEqual(vi.payload, rv.m) {
+			r.Fail("verified-payload-differs", "Verify's BP / signer / PayloadMap are not those that were signed", sd.t, string(vi.bp), r.CaseOps())
+		}
+		r.Hit("sign-then-verify:ok")
+		if len(r.Res.Samples) < 2 {
+			r.Sample(map[string]any{"kind": "signed document", "unsigned": ud.text, "signed": string(sd.doc)})
+		}
+		good = append(good, sd)
+		g.crafted(sd)
+		switch {
+		case len(good) <= nFullSweep:
+			g.sweep(sd, true)
+		case len(good) <= nFullSweep+nSetSweep:
+			g.sweep(sd, false)
+		default:
+			g.randomMutations(sd, nRand)
+		}
+		// the same document where the fetcher lacks the key, or serves it without our having the secret
+		if len(good)%5 == 0 {
+			g.newCase("verify-without-key-blob", map[*knownBlob]int{})
+			g.vop(nil, "x"+hk.Hex(sd.doc), &origInfo{t: sd.t, signer: sd.signer.ref})
+			g.newCase("verify-with-public-key-only", map[*knownBlob]int{sd.signer: 1})
+			vi := g.vop(nil, "x"+hk.Hex(sd.doc), &origInfo{t: sd.t, signer: sd.signer.ref})
+			if !vi.accepted {
+				r.Fail("verify-needs-secret-key", "verification fails when only the public key is available", "ok", vi.String(), nil)
+			}
+		}
+	}
+	if len(good) == 0 {
+		r.Fail("harness-no-signed-docs", "no document could be signed", "", "", nil)
+	}
+
+	// (3) the JSON model on the generated objects and their mutations
+	g.newCase("json-on-generated-objects", nil)
+	per := 20
+	if th {
+		per = 60
+	}
+	g.jsonFuzz(texts, per)
+
+	// (4) garbage documents and a malformed op stream
+	g.newCase("garbage-and-malformed", g.stdKeys())
+	for _, d := range []string{"", sep, "{" + sep + "x\"}", sep + sep, "{\"camliVersion\":1" + sep + "\"}", "{}" + sep + "x\"}", "null" + sep + "x\"}",
+		"{\"camliVersion\":1,\"camliSigner\":\"" + g.key[0].ref.String() + "\"" + sep + "\"}",
+		"{\"camliVersion\":1,\"camliSigner\":\"" + g.key[0].ref.String() + "\"" + sep + "====\"}",
+		"{\"camliVersion\":1,\"camliSigner\":\"" + g.key[0].ref.String() + "\"" + sep + "AAAA=AAAA\"}",
+		"{\"camliVersion\":1,\"camliSigner\":\"" + g.key[0].ref.String() + "\"" + sep + "\\u003d\"}"} {
+		g.vop(nil, "x"+hk.Hex([]byte(d)), nil)
+	}
+	if len(good) > 0 {
+		sd := good[0]
+		g.op("doc " + hk.Hex(sd.doc))
+		for _, l := range []string{"v", "v b", "v b - -", "v q1:2 -", "v s1 -", "v s1:256 -", fmt.Sprintf("v s%d:1 -", len(sd.doc)), fmt.Sprintf("v i%d:1 -", len(sd.doc)+1),
+			fmt.Sprintf("v d%d -", len(sd.doc)), "v d -", "v xzz -", "v b 0", "v b 0@", "v b @1", "v b 0@1@2", "v b x@1", "doc", "doc zz", "doc 0", "doc AB", "key",
+			"key " + hk.Hex([]byte(g.key[0].ref.String())) + " 3", "key " + hk.Hex([]byte(g.key[0].ref.String())) + " 02", "sign", "sign 7b7d", "sign 7b7d - x", "sign 7b7d zz 0", "sign 7b7d - 1.5",
+			"trim", "trim 0", "rearmor", "rearmor XY", "json", "json 1", "verify b -", "", "V b -", "sign 7b7d - 0 0"} {
+			if strings.TrimSpace(l) == "" {
+				continue
+			}
+			g.op(l)
+		}
+	}
+
+	// (5) the indexer only trusts verified claims (pkg/index/receive.go)
+	g.indexProbe(good)
+
+	r.Res.Histogram["signed-documents"] = len(good)
+	r.Note("OpenPGP (armor, packets, hashing, RSA) is the trusted library on both sides: the model receives its verdict for the (signer, BP, armored signature) triple as an oracle column, bound to the triple by an FNV digest")
+}
+
+func (g *gen) fakeSigN(n int) string {
+	const b64 = "ABCDEFGHIJKLMNOPQRSTUVWXYZabcdefghijklmnopqrstuvwxyz0123456789+/"
+	b := make([]byte, n)
+	for i := range b {
+		b[i] = b64[g.r.R.Intn(64)]
+	}
+	return string(b)
+}
